@@ -120,7 +120,13 @@ func c16(c *core.Ctx) {
 		c.Count("name_service_connections", int64(atomic.LoadInt32(&c16Lookups)))
 	}()
 	// The first thing a process does with the URI code - or with the code next to it - must not matter to the parser.
-	c.SectionFirst("first-use-order", 7, func(i int64, _ *gen.Rand) {
+	firstUse := int64(7)
+	if strings.HasPrefix(c.Config, "race") {
+		// not in the race build: it has four batches only, and thousands of sequential parses at the start of each would
+		// bring whatever the parser keeps between calls into its steady state before the concurrent sections begin
+		firstUse = 0
+	}
+	c.SectionFirst("first-use-order", firstUse, func(i int64, _ *gen.Rand) {
 		switch i {
 		case 0:
 			_ = stun.NewSchemeType("turns")
